@@ -33,6 +33,11 @@ FIRST = {
     "C11-4": "caught (replay)", "C12-4": "missed", "C13-4": "broken correspondence, no-failing-input-found", "C14-4": "caught (replay)",
     "C15-4": "missed", "C16-4": "missed", "C17-4": "missed", "C18-4": "broken correspondence, no-failing-input-found",
     "C19-4": "translator failure + 17 theorems broken, no-failing-input-found", "C20-4": "caught (replay)",
+    # round 5
+    "C01-5": "missed", "C02-5": "missed", "C03-5": "caught (replay)", "C04-5": "caught (replay)", "C05-5": "missed", "C06-5": "missed",
+    "C07-5": "missed", "C08-4": "caught (replay)", "C09-5": "missed", "C10-5": "missed", "C11-5": "missed", "C12-5": "missed",
+    "C13-5": "missed", "C14-5": "caught (replay)", "C15-5": "missed", "C16-5": "missed", "C17-5": "caught (replay)", "C18-5": "missed",
+    "C19-5": "translator failure, no-failing-input-found", "C20-5": "missed",
 }
 
 
